@@ -4,7 +4,7 @@
    every theorem is for both ([ok_osz osz]).  Files are byte lists; [encode osz es] is the
    .ecx/.sdx/.idx image of the entry list [es]. *)
 From Coq Require Import List NArith ZArith Bool.
-From SW Require Import model.EcIndex proof.EcIndexProofs.
+From SW Require Import model.EcIndex proof.EcIndexProofs proof.EcIndexMount.
 Import ListNotations.
 Local Open Scope N_scope.
 
@@ -98,14 +98,73 @@ Theorem c07_sorted_delete_witness :
 Proof. exact sorted_delete_witness. Qed.
 Print Assumptions c07_sorted_delete_witness.
 
+(* ---------- the real consumer of the rebuilt index: ec.decode, then the mount (Volume.load) ----------
+   [recs]: the records of the encoded .dat (start in offset units, id, Size field); FindDatFileSize,
+   WriteDatFile (first datSize bytes), WriteIdxFileFromEcIndex, CheckAndFixVolumeDataIntegrity,
+   doLoading, Volume.readNeedle: model/EcIndex.v dm_*. *)
+
+(* REFUTED (finding C07 k=0, same root cause as C06 k=0 / C04 k=2): "the index rebuilt from the
+   sorted index plus journal yields the same live set" fails for the volume that is mounted from
+   it: Write(1,"aaa"), Write(2,"bbb"), Write(1,"cccc"); the .idx is the key-sorted .ecx, the
+   integrity check takes its last entry (key 2) for the last record and cuts the .dat 128 -> 88;
+   key 1 is live, was never deleted, and cannot be read. *)
+Theorem c07_decode_then_load_refuted :
+  exists osz es recs,
+    ok_osz osz /\ Forall (wf_entry osz) es /\ sorted_keys es /\
+    Forall (fun e => e_off e <> 0) es /\ Forall (fun e => e_size e <> 0%Z) es /\
+    dm_cuts osz (encode osz es) [] recs = true /\
+    exists m len' h k e,
+      dm_decode_mount osz (encode osz es) [] recs = Some (m, len', h) /\
+      rfind k es = Some e /\ live e = true /\ dm_read m len' k = DmReadErr.
+Proof. exact decode_then_load_refuted. Qed.
+Print Assumptions c07_decode_then_load_refuted.
+
+(* PARTIAL, for every sorted index without Size-0 entries (those are finding C04 k=0), every
+   journal, every record layout: outside the decidable trigger [dm_cuts] (the integrity check of
+   the mount changes neither the .dat nor the .idx) the mounted volume's needle map is exactly
+   the live entries whose key is not journalled, and every key reads accordingly: the record of
+   its live, un-journalled entry, else not found. *)
+Theorem c07_decode_then_load_partial : forall osz es js recs,
+  ok_osz osz -> Forall (wf_entry osz) es -> sorted_keys es -> Forall (fun e => e_off e <> 0) es ->
+  Forall (fun k => k < two64) js ->
+  Forall (fun e => e_size e <> 0%Z) es ->
+  8 <= dm_dat_size osz (encode osz es) ->
+  dm_cuts osz (encode osz es) (concat (map enc_key js)) recs = false ->
+  dm_decode_mount osz (encode osz es) (concat (map enc_key js)) recs =
+    Some (live_spec js es, dm_dat_size osz (encode osz es), N.of_nat (length es + length js)) /\
+  forall k, dm_read (live_spec js es) (dm_dat_size osz (encode osz es)) k =
+    match rfind k es with
+    | Some e => if live e && negb (in_keys js k) then DmData (e_off e) (e_size e) else DmNotFound
+    | None => DmNotFound
+    end.
+Proof. exact decode_then_load_partial. Qed.
+Print Assumptions c07_decode_then_load_partial.
+
+(* ... and a decode with a NON-EMPTY journal (at least one deletion on the EC volume, present key
+   or not) is never inside the trigger: the last index entry is a zero-offset tombstone, on
+   which the integrity check stops.  So after any deletion the statement is FULL. *)
+Theorem c07_decode_journal_no_cut : forall osz es js recs,
+  ok_osz osz -> Forall (wf_entry osz) es -> Forall (fun k => k < two64) js ->
+  js <> [] -> dm_cuts osz (encode osz es) (concat (map enc_key js)) recs = false.
+Proof. exact decode_journal_no_cut. Qed.
+Print Assumptions c07_decode_journal_no_cut.
+
+(* non-vacuity of the partial theorem: empty journal with the largest key written last (both
+   keys served), and the refutation witness after key 1 was deleted on the EC volume *)
+Example c07_decode_then_load_example :
+  ok_osz 5 /\ Forall (wf_entry 5) x_es /\ sorted_keys x_es /\
+  Forall (fun e => e_off e <> 0) x_es /\ Forall (fun e => e_size e <> 0%Z) x_es /\
+  8 <= dm_dat_size 5 (encode 5 x_es) /\
+  dm_cuts 5 (encode 5 x_es) [] (firstn 2 w_recs) = false /\
+  dm_decode_mount 5 (encode 5 x_es) [] (firstn 2 w_recs) = Some ([(1, (1, 8%Z)); (2, (6, 8%Z))], 88, 2) /\
+  dm_cuts 4 (encode 4 (set_deleted 1 w_es)) (enc_key 1) w_recs = false /\
+  dm_decode_mount 4 (encode 4 (set_deleted 1 w_es)) (enc_key 1) w_recs = Some ([(2, (6, 8%Z))], 88, 3).
+Proof. exact decode_then_load_example. Qed.
+Print Assumptions c07_decode_then_load_example.
+
 (* non-vacuity: a 5-entry index under the 5-byte build (offsets above 2^32), key 3 deleted:
-   the hypotheses hold, entry 3 — and only entry 3 — becomes a tombstone, the journal holds key 3 *)
-Definition c07_ex_es : list entry :=
-  [ {| e_key := 1; e_off := 10; e_size := 100%Z |};
-    {| e_key := 2; e_off := 4294967296 + 7; e_size := 0%Z |};
-    {| e_key := 3; e_off := 1099511627775; e_size := 2147483647%Z |};
-    {| e_key := 4294967301; e_off := 12; e_size := 5%Z |};
-    {| e_key := 18446744073709551615; e_off := 13; e_size := 6%Z |} ].
+   the hypotheses hold, entry 3 - and only entry 3 - becomes a tombstone, the journal holds key 3
+   ([c07_ex_es] is defined in proof/EcIndexMount.v) *)
 Example c07_example :
   ok_osz 5 /\ Forall (wf_entry 5) c07_ex_es /\ sorted_keys c07_ex_es /\
   Forall (fun e => e_off e <> 0) c07_ex_es /\
@@ -115,8 +174,5 @@ Example c07_example :
       [1; 2; 3; 4; 4294967301] =
     [Some (10, 100%Z); Some (4294967303, 0%Z); Some (1099511627775, (-1)%Z); None; Some (12, 5%Z)] /\
   is_live 7 c07_ex_es = false /\ is_live 3 c07_ex_es = true.
-Proof.
-  split; [right; reflexivity|]. split; [repeat constructor; vm_compute; congruence|].
-  split; [repeat constructor|]. split; [repeat constructor; discriminate|].
-  repeat split; vm_compute; reflexivity.
-Qed.
+Proof. exact c07_example_holds. Qed.
+Print Assumptions c07_example.
